@@ -517,6 +517,17 @@ def _probe_thunks():
             return hashlib.sha256(DR.g_write(seq, cls, opts, "stream_frames_gen")).hexdigest()
         return thunk
 
+    def langtags(api):
+        def thunk():
+            seq = [(I("http://a/x"), I("http://a/p"), L("chat", "en")),
+                   (I("http://a/y"), I("http://a/p"), L("colour", "en-GB"))]
+            data = (DR.g_write if api == "generic" else DR.r_write)(seq, "triple", _opts("triple"),
+                                                                   "flat_to_file")
+            return hashlib.sha256(data).hexdigest()
+        return thunk
+
+    for api in ("generic", "rdflib"):
+        yield f"{api}-langtags", langtags(api)
     for cls in ("triple", "quad"):
         yield f"generic-{cls}-explicit-flow", explicit_flow(cls)
     def single_with_metadata():
@@ -639,6 +650,16 @@ def history_actions() -> dict:
             stream.flow.to_stream_frame()
         return act
 
+    def langcase(api):
+        """An unrelated stream whose literals have the same text as the probes' but language tags
+        in another letter case (rdflib compares tags case-insensitively)."""
+        def act():
+            seq = [(I("http://a/x"), I("http://a/p"), L("chat", "EN")),
+                   (I("http://a/x"), I("http://a/p"), L("colour", "en-gb"))]
+            (DR.g_write if api == "generic" else DR.r_write)(seq, "triple", _opts("triple"),
+                                                             "flat_to_file")
+        return act
+
     def subtype_stream():
         """A stream with a logical sub-type is merely constructed."""
         for cls, lt in (("triple", 13), ("quad", 114), ("quad", 14)):
@@ -647,6 +668,8 @@ def history_actions() -> dict:
 
     return {
         "subtype-stream": subtype_stream,
+        "langcase-generic": langcase("generic"),
+        "langcase-rdflib": langcase("rdflib"),
         "ns-grouped-generic": ns_grouped("generic"),
         "ns-grouped-rdflib": ns_grouped("rdflib"),
         "ns-manual-generic": ns_manual("generic"),
